@@ -3,7 +3,7 @@ prop(
     quick=[("native", 16), ("miri", 16)],
     thorough=[("native", 16), ("asan", 16), ("miri", 16)],
     level="exploration",
-    min_evals={"quick": 450_000, "thorough": 10_000_000},
+    min_evals={"quick": 600_000, "thorough": 12_000_000},
     rule=(
         "random histories (seeded per shard) of 5-15 ops over the real Client and the real Server::run joined by in-memory pipes "
         "(buffer sizes 1..4096 bytes per direction, so responses are suspended mid-PDU) with a byte-level middlebox, on a paused-clock "
@@ -14,10 +14,16 @@ prop(
         "server asked the source for its response). Per history: diff window never / last k / unbounded, diff style minimal / ASPA "
         "withdraw-then-announce / concatenated per-update diffs, ASPA withdrawals with or without providers. "
         "One evaluation = one completed Client::step() checked (replayed target log vs. snapshot named by the End of Data seen on the wire, "
-        "Client::state(), timing for version >= 1). A case signature is one of four classes of a completed, non-trivial step: "
+        "Client::state(), timing for version >= 1; the same log is also applied to three reference targets that keep the library values handed over - "
+        "a Vec using == only, a BTreeSet<Payload> (Ord) and a HashSet<Payload> (Hash, fixed keys), ASPA records replaced by customer - whose content, "
+        "read back through the accessors, and element count must equal the snapshot too), or one (type, triple) of the collection-key laws: for generated "
+        "triples of closest neighbours (origins differing in max length / explicit-or-implicit max length / ASN / prefix length / one address bit / family, "
+        "router keys differing in one bit of one field, ASPAs of the same customer) and each of Payload, PayloadRef, RouteOrigin, RouterKey, Aspa: "
+        "a == b iff cmp is Equal iff the two denote the same item on the wire, a == b implies equal hashes, partial_cmp agrees with cmp, cmp antisymmetric and transitive. "
+        "A case signature is one of four classes of a completed, non-trivial step: "
         "A (version, response serial/reset/fallback-reset, window class, how the connection started, downgrade?, update-during-response?, "
         "after serial wrap?, diff offered?), B (version, response, diff style, announce/withdraw pattern per payload type, data changed?), "
-        "C (version, response, the last two op kinds before the step), D (version, response, pipe size class per direction, items in the response). A step that transferred an empty diff is trivial and registers nothing. "
+        "C (version, response, the last two op kinds before the step), D (version, response, pipe size class per direction, items in the response); K (payload kind, neighbour relations of the triple, number of implicit-max-length forms) for the key laws. A step that transferred an empty diff is trivial and registers nothing. "
         "Steps ending in Err assert nothing and are counted as aborted_steps."
     ),
     assumptions=[
@@ -27,10 +33,12 @@ prop(
         "the harness source never reuses a (session, serial) pair for different data and offers diffs only within its current session",
         "virtual refresh intervals stay below tokio's timer wheel range (timers beyond 2^36 ms corrupt tokio 1.52's wheel under the paused clock)",
         "deterministic given seed and shard: no tokio::select!, single-threaded runtime",
+        "item identity is the one of the wire: an origin without explicit max length and one with max length = prefix length are the same item (the PDU carries the resolved value only); "
+        "ASPA provider lists compare in transmitted order; a target keeps one ASPA record per customer",
     ],
     level_text=(
         "Runtime oracle over executions of the real client/server pair: the harness target records every (action, payload) and the timing, "
-        "the checker replays the log on the client's previous data in a model written in plain integers and compares with the immutable "
+        "the checker replays the log on the client's previous data in a model written in plain integers (and in three reference collections keyed by the library's own Eq / Ord / Hash, read back into that model) and compares with the immutable "
         "snapshot the harness source recorded for the (session, serial) in the End of Data PDU tapped at the byte boundary, restricted to the "
         "payload types of the version in that PDU. Exploration of random update/query histories with all protocol versions, downgrade through "
         "an emulated older cache, diff availability classes and updates racing a suspended response; Miri and ASan repeat a reduced workload "
@@ -40,6 +48,6 @@ prop(
         "Sampled histories only; the oracle trusts the harness' own source/diff implementation (self-checked: every diff offered leads from the "
         "old to the current snapshot) and the byte tap. Aborted steps (e.g. a Serial Notify between query and response) assert nothing."
     ),
-    technique="runtime oracle (replayed target log vs. source snapshot) over random client/server histories in virtual time + Miri/ASan",
+    technique="runtime oracle (replayed target log, in an integer model and in Eq/Ord/Hash-keyed reference targets, vs. source snapshot) over random client/server histories in virtual time + Eq/Ord/Hash coherence laws on neighbour triples + Miri/ASan",
     design_ref="DESIGN.md §4 C06",
 )
